@@ -199,7 +199,6 @@ func VerifC14Namespace() {
 	}
 }
 
-
 // ---- LIST: RFC 3501 wildcard matching over the existing names and the names that exist only as parents ----
 
 // c14Wild: '*' matches any characters, '%' any characters but the delimiter.
